@@ -134,6 +134,7 @@ inductive Ty where
   | slice (elem : Ty)          -- []elem ; `slice iface` = []interface{} = an ECAL list
   | emap                       -- map[interface{}]interface{} = an ECAL map
   | other (id : Nat)           -- any other non-interface type (pointers, structs, funcs …)
+  | gmap (k v : Ty)            -- map[k]v other than the ECAL map type
   | named (id : Nat) (under : Ty)   -- a defined type (`type D int64`) with a non-interface underlying type:
                                     -- its own identity, the Kind of `under`
   deriving DecidableEq, Repr, Inhabited
@@ -152,6 +153,7 @@ def isNumeric : Ty → Bool
 abbrev list : Ty := slice iface
 end Ty
 
+mutual
 /-- a Go value as held in an `interface{}`; the texts `c` identify contents the bridge never looks at -/
 inductive Val where
   | nil                              -- the nil interface (ECAL NULL)
@@ -160,11 +162,24 @@ inductive Val where
   | f32 (x : Num)
   | f64 (x : Num)                    -- an ECAL number
   | str (c : String)
-  | list (c : String)                -- []interface{}
-  | map (c : String)                 -- map[interface{}]interface{}
-  | foreign (t : Ty) (c : String)    -- any other value of dynamic type `t` (ECAL function objects, errors, []int …)
+  | list (c : String)                -- []interface{} (an ECAL list; contents not looked at)
+  | map (c : String)                 -- map[interface{}]interface{} (an ECAL map; contents not looked at)
+  | foreign (t : Ty) (c : String)    -- any other value of dynamic type `t` (ECAL function objects, errors …)
   | named (id : Nat) (v : Val)       -- the value `v` converted to the defined type `id`
+  | seq (t : Ty) (xs : Vals)         -- a Go slice / array of element type `t` (`[]int`, `[3]float32`, `[][]int` …)
+  | gomap (kt vt : Ty) (kvs : Vals)  -- a Go map `map[kt]vt`: keys and values alternating
+  | elist (xs : Vals)                -- an ECAL list built by the bridge (contents known)
+  | emapv (kvs : Vals)               -- an ECAL map built by the bridge: keys and values alternating
   deriving DecidableEq, Repr, Inhabited
+inductive Vals where
+  | nil
+  | cons (v : Val) (vs : Vals)
+  deriving DecidableEq, Repr, Inhabited
+end
+
+def Vals.toList : Vals → List Val
+  | .nil => []
+  | .cons v vs => v :: vs.toList
 
 /-- `reflect.TypeOf` -/
 def Val.ty : Val → Option Ty
@@ -178,6 +193,10 @@ def Val.ty : Val → Option Ty
   | .map _ => some .emap
   | .foreign t _ => some t
   | .named id v => v.ty.map (Ty.named id)
+  | .seq t _ => some (.slice t)
+  | .gomap kt vt _ => some (.gmap kt vt)
+  | .elist _ => some .list
+  | .emapv _ => some .emap
 
 /-- signature of the wrapped function as reflect reports it: `params = In(0..NumIn-1)`
     (for a variadic function the last one is the slice type), `results = Out(0..NumOut-1)` -/
@@ -294,12 +313,33 @@ def numericOf : Ty → Val → Option Num
   | _, _ => none
 
 /-- `convertResultNumber`: switch over `v.Kind()`, the kind of the *static* result type; for a result
-    declared as an interface (every plugin function: `(interface{}, error)`) the kind of the value in it -/
+    declared as an interface (every plugin function: `(interface{}, error)`) the kind of the value in it.
+    Only the numeric kinds are converted: a slice, array or map of Go values (`seq`, `gomap`) is passed
+    on as it is — see `demandedResult` and the known finding `nested-result-numbers`. -/
 def convertResultNumber (static : Ty) (v : Val) : Val :=
   let t := if static.isInterface then v.ty.getD static else static
   match numericOf t v with
   | some x => .f64 x
   | none => v
+
+mutual
+/-- What the property's clause "Go integers and floats delivered as ECAL numbers" would demand of a
+    result, and what the CANDIDATE repair `fixes/C19-nested-result-numbers.patch` (NOT applied to the
+    code) does: a slice / array / map of Go values becomes an ECAL list / map with every element converted
+    by its element type; `[]interface{}` and `map[interface{}]interface{}` are ECAL values already and
+    are passed on as they are. The code as it is does `convertResultNumber` only. -/
+def demandedResult (static : Ty) (v : Val) : Val :=
+  match v with
+  | .seq t xs => if t = .iface then v else .elist (demandedSeq t xs)
+  | .gomap kt vt kvs => .emapv (demandedMap kt vt kvs)
+  | v => convertResultNumber static v
+def demandedSeq (t : Ty) : Vals → Vals
+  | .nil => .nil
+  | .cons v vs => .cons (demandedResult t v) (demandedSeq t vs)
+def demandedMap (kt vt : Ty) : Vals → Vals
+  | .cons k (.cons v rest) => .cons (demandedResult kt k) (.cons (demandedResult vt v) (demandedMap kt vt rest))
+  | _ => .nil
+end
 
 inductive Err where
   | bridge (e : BridgeErr)
